@@ -992,7 +992,7 @@ def gen_cases(ctx):
     cases = corpus_cases()
     if not ctx.quick():
         cases += exhaustive_orders(rng)
-    np_, npush, nleg = (220, 60, 30) if ctx.quick() else (5000, 1000, 300)
+    np_, npush, nleg = (220, 60, 30) if ctx.quick() else (4000, 800, 300)
     for _ in range(np_):
         cases.append(gen_pull(rng))
     for _ in range(npush):
